@@ -19,6 +19,7 @@ func init() {
 			`R17.2 the skip path reads every message type the processing path reads for a series (sibling agreement); a type it would decode as another type must not alias the end-marker discriminator (field number + wire type from the generated struct tags); ` +
 			`R17.3 a freshly read header is acted upon (skip or process) only after it was compared with the expected file index; ` +
 			`R17.4 the series kind that skipFile dispatches on is (re)assigned on every path from reading the header to the skip/process decision. ` +
+			`R17.6 (shared with C03) every cyclic path through the increment of the checkpoint file index stores nil into each pointer field of the checkpoint that the loop body or its callees read (SyncHeader, RsyncCheckpoint, BsdiffCheckpoint), directly or through a callee / deferred call that does so on all its paths. ` +
 			`NOT decided: equality of the selected files with full application; that GetTouchedFiles equals the subset size.`,
 		Assumptions: []string{"effects are the Bowl methods GetWriter/Transpose and the lake.Pool methods GetSize/GetReader/GetReadSeeker; module-internal call graph (CHA) for reachability"},
 		Run:         runC17,
@@ -31,6 +32,7 @@ func runC17(c *core.Ctx) {
 	c.Rule("R17.3", "whitelist consulted after the header check")
 	c.Rule("R17.4", "series kind is set from the current header before skipping")
 	c.Rule("R17.5", "the whitelist kept is the caller's, values included")
+	rulePerFileStateCleared(c, "R17.6")
 	{
 		nSt := 0
 		for _, fn := range c.P.SrcFuncs() {
@@ -470,4 +472,166 @@ func protoTag(t types.Type, field string) string {
 		}
 	}
 	return ""
+}
+
+// rulePerFileStateCleared is R17.6 (shared with C03): the checkpoint handed to Resume carries state that
+// belongs to the file it was saved in (the series checkpoints, the header already read). Whatever way an
+// iteration of the file loop takes - processing the file or skipping it - that state must be nil again
+// before the next iteration, or the next file of the same kind "resumes" a series that is not its own.
+// The fields are found by role: pointer fields of the checkpoint that the loop body or the functions it
+// calls read. The anchor is the increment of the file index.
+func rulePerFileStateCleared(c *core.Ctx, rule string) {
+	c.Rule(rule, "per-file checkpoint state is cleared on every way round the file loop")
+	resume := c.P.Fn("pwr/patcher", "savingPatcher.Resume")
+	if resume == nil {
+		c.Missing(rule, "pwr/patcher.(*savingPatcher).Resume", "not found")
+		return
+	}
+	rname := core.FnName(resume)
+	isCk := func(v ssa.Value) bool {
+		return strings.HasSuffix(core.TypeName(v.Type()), "pwr/patcher.Checkpoint")
+	}
+	var inc *ssa.Store
+	core.Instrs(resume, func(in ssa.Instruction) {
+		st, ok := in.(*ssa.Store)
+		if !ok {
+			return
+		}
+		base, n, ok := core.FieldOf(st.Addr)
+		if !ok || n != "FileIndex" || !isCk(base) {
+			return
+		}
+		if bo, ok := st.Val.(*ssa.BinOp); ok && bo.Op == token.ADD {
+			if k, isC := core.ConstInt(bo.Y); isC && k == 1 {
+				inc = st
+			}
+		}
+	})
+	if inc == nil {
+		c.Missing(rule, rname, "no increment of the checkpoint's file index in Resume")
+		return
+	}
+	// the loop: blocks on a cycle through the increment
+	reach := func(from *ssa.BasicBlock, fwd bool) map[*ssa.BasicBlock]bool {
+		seen := map[*ssa.BasicBlock]bool{}
+		work := []*ssa.BasicBlock{}
+		next := func(b *ssa.BasicBlock) []*ssa.BasicBlock {
+			if fwd {
+				return b.Succs
+			}
+			return b.Preds
+		}
+		work = append(work, next(from)...)
+		for len(work) > 0 {
+			b := work[len(work)-1]
+			work = work[:len(work)-1]
+			if seen[b] {
+				continue
+			}
+			seen[b] = true
+			work = append(work, next(b)...)
+		}
+		return seen
+	}
+	fw, bw := reach(inc.Block(), true), reach(inc.Block(), false)
+	if !fw[inc.Block()] {
+		c.Missing(rule, rname, "the increment of the file index is not inside a loop")
+		return
+	}
+	// fields read by the loop body and what it calls
+	read := map[string]token.Pos{}
+	var scan func(fn *ssa.Function, only func(*ssa.BasicBlock) bool, depth int, seen map[*ssa.Function]bool)
+	scan = func(fn *ssa.Function, only func(*ssa.BasicBlock) bool, depth int, seen map[*ssa.Function]bool) {
+		if seen[fn] {
+			return
+		}
+		seen[fn] = true
+		for _, b := range fn.Blocks {
+			if only != nil && !only(b) {
+				continue
+			}
+			for _, in := range b.Instrs {
+				switch x := in.(type) {
+				case *ssa.UnOp:
+					if x.Op != token.MUL {
+						continue
+					}
+					fa, ok := x.X.(*ssa.FieldAddr)
+					if !ok || !isCk(fa.X) {
+						continue
+					}
+					if _, isPtr := x.Type().Underlying().(*types.Pointer); !isPtr {
+						continue
+					}
+					_, n, _ := core.FieldOf(fa)
+					if _, dup := read[n]; !dup {
+						read[n] = x.Pos()
+					}
+				case ssa.CallInstruction:
+					if depth <= 0 {
+						continue
+					}
+					if cal := x.Common().StaticCallee(); cal != nil && cal.Blocks != nil && strings.HasPrefix(core.PkgPathOf(cal), core.Mod) {
+						scan(cal, nil, depth-1, seen)
+					}
+				}
+			}
+		}
+		for _, an := range fn.AnonFuncs {
+			if only == nil {
+				scan(an, nil, depth, seen)
+			}
+		}
+	}
+	scan(resume, func(b *ssa.BasicBlock) bool { return fw[b] && bw[b] }, 3, map[*ssa.Function]bool{})
+	var fields []string
+	for n := range read {
+		fields = append(fields, n)
+	}
+	sort.Strings(fields)
+	c.Floor(rule, "pointer fields of the checkpoint read inside the file loop", len(fields), 2)
+	// clearing events
+	var alwaysClears func(fn *ssa.Function, field string, depth int) bool
+	clearsHere := func(field string, depth int) ipred {
+		return func(in ssa.Instruction) bool {
+			switch x := in.(type) {
+			case *ssa.Store:
+				base, n, ok := core.FieldOf(x.Addr)
+				return ok && n == field && isCk(base) && core.IsNilConst(x.Val)
+			case *ssa.Defer:
+				for _, f := range deferCallees(x) {
+					if depth > 0 && alwaysClears(f, field, depth-1) {
+						return true
+					}
+				}
+			case *ssa.Call:
+				if depth > 0 {
+					if cal := localCallee(x); cal != nil && alwaysClears(cal, field, depth-1) {
+						return true
+					}
+					if cal := x.Call.StaticCallee(); cal != nil && cal.Blocks != nil && strings.HasPrefix(core.PkgPathOf(cal), core.Mod) && alwaysClears(cal, field, depth-1) {
+						return true
+					}
+				}
+			}
+			return false
+		}
+	}
+	memo := map[string]bool{}
+	alwaysClears = func(fn *ssa.Function, field string, depth int) bool {
+		key := core.FnName(fn) + "|" + field
+		if v, ok := memo[key]; ok {
+			return v
+		}
+		memo[key] = false
+		res := core.FindPath(fn, nil, isReturn, clearsHere(field, depth)) == nil
+		memo[key] = res
+		return res
+	}
+	for _, f := range fields {
+		p := core.FindPath(resume, inc, isInstr(inc), clearsHere(f, 2))
+		c.Check(p == nil, rule, rname, "Checkpoint."+f+" is nil again before the next file", read[f],
+			"every way round the file loop stores nil into the field (itself, or through a callee or deferred call that always does)",
+			"an iteration of the file loop can leave Checkpoint."+f+" as it found it: after resuming in the middle of a file that the whitelist now skips, the next file of the same kind continues that file's series at that file's offsets").Path = c.P.PathStrings(p)
+	}
 }
